@@ -25,8 +25,14 @@ class BoomT(TypeError):
 
 
 class Val:
+    """what __conform__ / a hook / __adapt__ / a factory answers.  Every odd-numbered one is FALSY (an empty container-like
+    adapter is a legal adapter: "non-None", not "true", is what the statement says)"""
+
     def __init__(self, k):
         self.k = k
+
+    def __bool__(self):
+        return self.k % 2 == 0
 
 
 def run(lines, out, args):
